@@ -4469,3 +4469,75 @@ func rulePerSegmentFieldsInvalidatedOnSwitch(r *Report, rule string) {
 		r.Ob(rule, "DocValueReader."+f+"/invalidated-on-segment-switch", per[f], ok, "field "+f+" is computed for the current segment (assigned from a call taking currSegmentIndex) but is not re-initialised in the branch that switches segments: the next segment is read with the previous segment's "+f)
 	}
 }
+
+// ruleCompoundAdvanceCoversAllChildren (K12): Advance(target) of a compound
+// searcher has to move EVERY child cursor that takes part in producing
+// candidates: for each field of the searcher struct that holds a child
+// search.Searcher (or a slice of them), the Advance method contains a call of
+// that child's Advance (directly, or through a helper of the same type).
+// Leaving one cursor behind makes Advance behave like Next for the shapes in
+// which that cursor is the candidate cursor (e.g. a boolean query without a
+// must clause), returning ids smaller than the target.
+func ruleCompoundAdvanceCoversAllChildren(r *Report, rule string, typeNames ...string) {
+	p := r.P
+	searcherIface := p.Pkg("search").Types.Scope().Lookup("Searcher").Type().Underlying().(*types.Interface)
+	n := 0
+	for _, tn := range typeNames {
+		_, st := structOf(p, "search/searcher", tn)
+		fi := p.MustFunc("search/searcher.(*" + tn + ").Advance")
+		r.Fn(fi)
+		// call closure: Advance plus same-receiver helpers, one level
+		var bodies []*FuncInfo
+		bodies = append(bodies, fi)
+		for _, c := range callsDeep(fi.Decl.Body) {
+			if f := callee(fi.Pkg.TypesInfo, c); f != nil {
+				if sel, ok := ast.Unparen(c.Fun).(*ast.SelectorExpr); ok && objOf(fi.Pkg.TypesInfo, sel.X) == recvObj(fi) && f.Name() != "Next" {
+					if hf := p.funcs[funcName(f)]; hf != nil {
+						bodies = append(bodies, hf)
+					}
+				}
+			}
+		}
+		for i := 0; i < st.NumFields(); i++ {
+			f := st.Field(i)
+			t := f.Type()
+			if sl, ok := t.Underlying().(*types.Slice); ok {
+				t = sl.Elem()
+			}
+			if !(types.Implements(t, searcherIface) || types.Identical(t.Underlying(), searcherIface)) {
+				continue
+			}
+			n++
+			advanced := false
+			for _, b := range bodies {
+				info := b.Pkg.TypesInfo
+				for _, c := range callsDeep(b.Decl.Body) {
+					sel, ok := ast.Unparen(c.Fun).(*ast.SelectorExpr)
+					if !ok || sel.Sel.Name != "Advance" {
+						continue
+					}
+					// receiver expression mentions the field (s.f.Advance, or a range variable over s.f)
+					x := ast.Unparen(sel.X)
+					if ix, isIx := x.(*ast.IndexExpr); isIx {
+						x = ast.Unparen(ix.X) // s.children[i].Advance(...)
+					}
+					if isField(info, x, tn, f.Name()) {
+						advanced = true
+					}
+					if o := objOf(info, x); o != nil {
+						ast.Inspect(b.Decl.Body, func(y ast.Node) bool {
+							if rs, ok := y.(*ast.RangeStmt); ok && rs.Value != nil && objOf(info, rs.Value) == o && isField(info, rs.X, tn, f.Name()) {
+								advanced = true
+							}
+							return true
+						})
+					}
+				}
+			}
+			r.Ob(rule, tn+".Advance/advances-"+f.Name(), fi.Decl.Pos(), advanced, tn+".Advance never advances its child "+f.Name()+": that cursor stays where it was, so for the query shapes in which it supplies the candidates Advance(target) returns a match smaller than target")
+		}
+	}
+	if n < 5 {
+		undecidedf("compound-advance rule matched %d child fields", n)
+	}
+}
